@@ -12,7 +12,7 @@ package input
 // (The merge functions carry every property whose statement ranges over multi-file configurations: the Input that the
 // validators and compile steps see is the merged one.)
 //@ func mergePtr
-//@   property C09 C02 C03 C04 C05 C13 C14 C15
+//@   property C09 C02 C03 C04 C05 C13 C14 C15 C18
 //@   ensures [nil_iff] (result == nil) <==> (a == nil && b == nil)
 //@   ensures [later_wins] b != nil ==> *result == *b
 //@   ensures [earlier_kept] b == nil && a != nil ==> *result == *a
@@ -109,7 +109,7 @@ package input
 //@     invariant [both] forall k string :: k in visited && k in a ==> r[k] == mergeService(a[k], b[k])
 
 //@ func Merge pure
-//@   property C09 C04 C02 C03 C05 C13 C14 C15
+//@   property C09 C04 C02 C03 C05 C13 C14 C15 C18
 //@   ensures [version] optMergedVersion(result.Version, i1.Version, i2.Version)
 //@   ensures [meta_pkg] optMerged(result.Meta.Pkg, i1.Meta.Pkg, i2.Meta.Pkg)
 //@   ensures [meta_container_type] optMerged(result.Meta.ContainerType, i1.Meta.ContainerType, i2.Meta.ContainerType)
@@ -201,11 +201,18 @@ package input
 
 // ---- C18: version compatibility gate. svValid/svMaj/svMin are the assumed abstraction of x/mod/semver (A12).
 
-// The yaml callback is an opaque function value: its result and the decoded value are arbitrary.
+// The yaml callback decodes the node into the value it is given: its error and the decoded value are functions of the
+// callback and the target type (decodeErr / decoded; assumed of yaml.v3). A version that is not a YAML string, or a
+// string that is not a semantic version once "v" is put in front, is a parse error for every build.
 //@ func (*Version).UnmarshalYAML
-//@   property C18 C12
+//@   property C18 C12 C11
+//@   modifies *v
 //@   ensures [accepted_is_semver_without_v] result == nil ==> svValid("v" + string(*v))
 //@   ensures [rejected_unchanged] result != nil ==> *v == old(*v)
+//@   ensures [decoder_error_is_reported] decodeErr(unmarshal, "any") != nil ==> result != nil
+//@   ensures [accepted_iff_a_string_that_is_semver @a] decodeErr(unmarshal, "any") == nil ==>
+//@        ((result == nil) <==> (isStr(decoded(unmarshal, "any")) && svValid("v" + strOf(decoded(unmarshal, "any")))))
+//@   ensures [stores_the_string_as_written @b] result == nil ==> string(*v) == strOf(decoded(unmarshal, "any"))
 
 //@ func NewVersionValidator
 //@   property C18
@@ -241,16 +248,43 @@ package input
 
 //@ func (*Scope).UnmarshalYAML
 //@   property C05 C11 C12
+//@   modifies *s
 //@   ensures [accepted_is_keyword_value] result == nil ==> (*s == ScopeShared || *s == ScopeContextual || *s == ScopeNonShared)
 //@   ensures [rejected_unchanged] result != nil ==> *s == old(*s)
+//@   ensures [decoder_error_is_reported] decodeErr(unmarshal, "string") != nil ==> result != nil
+//@   ensures [accepted_iff_one_of_the_three_keywords] decodeErr(unmarshal, "string") == nil ==> ((result == nil) <==>
+//@        (decoded(unmarshal, "string") == "shared" || decoded(unmarshal, "string") == "contextual" || decoded(unmarshal, "string") == "non_shared"))
+//@   ensures [keyword_to_scope] result == nil ==> *s == (decoded(unmarshal, "string") == "shared" ? ScopeShared : (decoded(unmarshal, "string") == "contextual" ? ScopeContextual : ScopeNonShared))
 
+// C04 / C11: a tag is either a plain string (priority 0) or a mapping with a string name and an optional int priority
+// (default 0); anything else is rejected.
 //@ func (*Tag).UnmarshalYAML
 //@   property C04 C11 C12
-//@   ensures [rejected_or_set] true
+//@   modifies *t
+//@   ensures [decoder_error_is_reported] decodeErr(unmarshal, "any") != nil ==> result != nil
+//@   ensures [accepted_iff_string_or_well_formed_mapping @a] decodeErr(unmarshal, "any") == nil ==> ((result == nil) <==>
+//@        (isStr(decoded(unmarshal, "any")) || (isDict(decoded(unmarshal, "any")) && dictOf(decoded(unmarshal, "any")) != nil
+//@          && ("name" in dictOf(decoded(unmarshal, "any"))) && isStr(dictOf(decoded(unmarshal, "any"))["name"])
+//@          && (("priority" in dictOf(decoded(unmarshal, "any"))) ==> isInt(dictOf(decoded(unmarshal, "any"))["priority"])))))
+//@   ensures [plain_string_has_priority_zero @b] result == nil && isStr(decoded(unmarshal, "any")) ==> t.Name == strOf(decoded(unmarshal, "any")) && t.Priority == 0
+//@   ensures [mapping_gives_name_and_priority @c] result == nil && isDict(decoded(unmarshal, "any")) ==> t.Name == strOf(dictOf(decoded(unmarshal, "any"))["name"])
+//@        && t.Priority == (("priority" in dictOf(decoded(unmarshal, "any"))) ? intOf(dictOf(decoded(unmarshal, "any"))["priority"]) : 0)
 
+// C02 / C11: a call is a sequence of one to three elements: the method (a string), the arguments (a sequence) and the
+// immutable flag (a bool); each element that is present must have its kind - an explicit null is not an omitted element.
 //@ func (*Call).UnmarshalYAML
 //@   property C02 C11 C12
-//@   ensures [rejected_or_set] true
+//@   modifies *c
+//@   ensures [decoder_error_is_reported] decodeErr(unmarshal, "[]any") != nil ==> result != nil
+//@   ensures [accepted_iff_call_shape @a] decodeErr(unmarshal, "[]any") == nil ==> ((result == nil) <==>
+//@        (1 <= len(decoded(unmarshal, "[]any")) && len(decoded(unmarshal, "[]any")) <= 3 && isStr(decoded(unmarshal, "[]any")[0])
+//@          && (len(decoded(unmarshal, "[]any")) >= 2 ==> isList(decoded(unmarshal, "[]any")[1]))
+//@          && (len(decoded(unmarshal, "[]any")) >= 3 ==> isBool(decoded(unmarshal, "[]any")[2]))))
+//@   ensures [method_args_flag_by_position @b] result == nil ==> c.Method == strOf(decoded(unmarshal, "[]any")[0])
+//@        && (len(decoded(unmarshal, "[]any")) >= 2 ==> c.Args == listOf(decoded(unmarshal, "[]any")[1]))
+//@        && (len(decoded(unmarshal, "[]any")) >= 3 ==> c.Immutable == boolOf(decoded(unmarshal, "[]any")[2]))
+//@   ensures [omitted_elements_keep_their_defaults @c] result == nil ==> (len(decoded(unmarshal, "[]any")) < 2 ==> c.Args == old(c.Args))
+//@        && (len(decoded(unmarshal, "[]any")) < 3 ==> c.Immutable == old(c.Immutable))
 
 // reservedGetters is filled by reflection over *container.Container (outside the modelled subset).
 //@ func init#2
